@@ -2,9 +2,12 @@
 //   bluetoe/sm/include/bluetoe/io_capabilities.hpp, oob_authentication.hpp and the pairing request
 //   handlers of security_manager.hpp (legacy, LESC-only and combined security manager).
 //
-// A real security manager is instantiated per configuration (variant x input x output x MITM option);
-// every cell is evaluated by sending a Pairing Request through l2cap_input on a fresh connection and
-// reading the Pairing Response bytes 1..3 plus the pairing algorithm stored in the connection data.
+// A real security manager is instantiated per configuration (variant x input x output x MITM option),
+// always with an oob_authentication_callback whose answer is the `loc` argument of the operation.
+// Every cell is evaluated by sending a Pairing Request (key size 16, key distribution 0) on a fresh
+// connection - through l2cap_input() wherever that compiles, see entry_t below - and reading the
+// Pairing Failed reason, or the Pairing Response bytes 1..3 plus the pairing algorithm and pairing
+// state stored in the connection data. The manager object lives as long as the CASE.
 //
 // build/<id>/<key>.d/smselect_configs.inc (written by the runner) lists CFG(variant,input,output,mitm)
 //
